@@ -30,8 +30,9 @@ MODS = ["AsmjitVerif.Props.C05"]
 
 
 def generate():
-    """no Gen/ files: the validator's inputs are the dumps of the run"""
-    return None
+    """Gen/VexEvex.lean: VEX/EVEX siblings from db/isa_x86.json + the rows of transform_vex_to_evex from x86rapass.cpp"""
+    import gen_vexevex
+    return gen_vexevex.generate()
 
 
 # ----------------------------------------------------------------------------------------------------------------------
@@ -261,6 +262,51 @@ def avx512_programs(rng, n, tier):
     return progs
 
 
+VEX_ROWS = ["vpand", "vpandn", "vpor", "vpxor", "vmovdqa", "vmovdqu", "vextractf128", "vextracti128", "vinsertf128", "vinserti128",
+            "vbroadcastf128", "vbroadcasti128", "vroundps", "vroundpd", "vroundss", "vroundsd"]
+
+
+def vex_row_programs(rng):
+    """systematic: every VEX instruction that X86RAPass::rewrite renames to an EVEX sibling (transform_vex_to_evex), in a frame with
+    AVX-512 enabled and 24 simultaneously live vector values, applied across all of them - so registers 16..31 are certainly used"""
+    R, I, M = c05_gen.R, c05_gen.Imm, c05_gen.Mem
+    progs = []
+    for name in VEX_ROWS:
+        for ty in (("v128", "v256") if name in ("vpand", "vpandn", "vpor", "vpxor", "vmovdqa", "vmovdqu", "vroundps", "vroundpd") else ("v256",) if "128" in name else ("v128",)):
+            n = 24
+            size = c05_gen.TYPE_BITS[ty] // 8
+            regs = [("p", "ptr"), ("a", "u64"), ("res", "u64")] + [("y%d" % i, ty) for i in range(n)] + [("x%d" % i, "v128") for i in range(4)]
+            body = [("i", "vmovdqu", [R("y%d" % i), M(size, "p", (i * 8) % (256 - size + 1))]) for i in range(n)]
+            body += [("i", "vmovdqu", [R("x%d" % i), M(16, "p", 16 * i + 4)]) for i in range(4)]
+            for i in range(n):
+                d, s1, s2 = "y%d" % i, "y%d" % ((i * 7 + 3) % n), "y%d" % ((i * 5 + 11) % n)
+                if name in ("vpand", "vpandn", "vpor", "vpxor"):
+                    body.append(("i", name, [R(d), R(s1), R(s2)]))
+                elif name in ("vmovdqa", "vmovdqu"):
+                    body.append(("i", name, [R(d), R(s1)]))
+                    body.append(("i", "vpxor", [R(s1), R(s1), R(s2)]))
+                elif name.startswith("vextract"):
+                    body.append(("i", name, [R("x%d" % (i % 4)), R(s1), I(i & 1)]))
+                    body.append(("i", "vinserti128", [R(d), R(d), R("x%d" % (i % 4)), I(1 - (i & 1))]))
+                elif name.startswith("vinsert"):
+                    body.append(("i", name, [R(d), R(s1), R("x%d" % (i % 4)), I(i & 1)]))
+                elif name.startswith("vbroadcast"):
+                    body.append(("i", name, [R(d), M(16, "p", (i * 4) % 241)]))
+                    body.append(("i", "vpxor", [R(d), R(d), R(s1)]))
+                elif name in ("vroundps", "vroundpd"):
+                    body.append(("i", name, [R(d), R(s1), I(i & 3)]))
+                else:
+                    body.append(("i", name, [R(d), R(s1), R(s2), I(i & 3)]))
+            for i in range(1, n):      # everything stays live to the end
+                body.append(("i", "vpxor", [R("y0"), R("y0"), R("y%d" % i)]))
+            body.append(("i", "vmovdqu", [M(size, "p", 0), R("y0")]))
+            body.append(("i", "mov", [R("res"), R("a")]))
+            body.append(("ret", "res"))
+            progs.append({"arch": ["x64", "avx512"], "regs": regs, "stacks": [], "ret": "u64", "argtypes": ["ptr", "u64"], "args": ["p", "a"], "body": body,
+                          "inputs": [[0, 1], [0, 0x1234567]], "family": "x64-vex-rows"})
+    return progs
+
+
 def x86_32_programs(rng, n):
     R, I, M, L = c05_gen.R, c05_gen.Imm, c05_gen.Mem, c05_gen.Lbl
     progs = []
@@ -367,6 +413,12 @@ def run(res):
         "an inserted move of w bytes copies every virtual register of at most w bytes exactly",
         "AArch64 and x86-32 functions are validated, not executed"]
     broken = []
+    try:
+        pairs, rows = generate()
+        res.coverage["vex_evex_pairs"] = len(pairs)
+        res.coverage["rewriter_rows"] = ["%s->%s" % r for r in rows]
+    except Exception as e:      # a translator that no longer understands the sources = broken obligation
+        broken.append("translator gen_vexevex: %s" % e)
     ok, out = vlib.lean_stage(res, PID, MODS)
     if not ok and not res.violations:
         for ft in getattr(res, "build_failures", []) or [{"decl": "?", "msg": out[-800:]}]:
@@ -379,6 +431,7 @@ def run(res):
 
     quick = res.tier == "quick"
     progs = idiom_programs()
+    progs += vex_row_programs(rng)
     progs += random_programs(rng, 260 if quick else 4000, res.tier)
     progs += a64_programs(rng, 90 if quick else 1500)
     progs += x86_32_programs(rng, 50 if quick else 800)
